@@ -139,7 +139,8 @@ def loop_audit(c, o):
     tail = [d for d in o["draws"] if "draw" in d][-3:]
     for d in tail:
         fd = b2f(d["fisher_distance"])
-        if not (fd <= 1e-10 * max(1.0, dim)):
+        # (a squared distance: rounding leaves it below 1e-22 even for means 1e4 widths away)
+        if not (fd <= 1e-19 * max(1.0, dim)):
             bad.append("after warmup the whitened gradient is not minus the whitened position (fisher_distance %r) for a Gaussian target" % fd)
             break
     return bad
